@@ -12,7 +12,7 @@ CONSTANTS MaxP, MaxK, Acks,
 VARIABLES pic, pc, got, expected, embedded, hasMime, reqs, result
 vars == <<pic, pc, got, expected, embedded, hasMime, reqs, result>>
 
-Pics == [embedded : -1..MaxP, file : -1..MaxP, hasMime : BOOLEAN, mime : {<<105>>}, limit : 1..MaxK, embedded_ack : Acks, file_ack : Acks, vary : BOOLEAN, ackp : {FALSE}]
+Pics == [embedded : -1..MaxP, file : -1..MaxP, hasMime : BOOLEAN, mime : {<<105>>}, limit : 1..MaxK, embedded_ack : Acks, file_ack : Acks, vary : BOOLEAN, ackp : {FALSE}, tfirst : {FALSE}]
 Init == /\ pic \in Pics /\ pc = "embedded0" /\ got = 0 /\ expected = 0 /\ embedded = FALSE /\ hasMime = FALSE /\ reqs = <<>> /\ result = [o |-> "", code |-> 0]
 
 \* the typed reply of one picture command: [k: "some" | "none" | "err", size, n, mime?, code]
